@@ -197,6 +197,7 @@ impl<'a> M<'a> {
 }
 
 struct Parent<'a> {
+    lk: &'a Lookup,
     positions: &'a [usize],
     seq: usize,
 }
@@ -514,9 +515,26 @@ impl<'a> Interp<'a> {
                             let items: Vec<M> = lig.comps.iter().map(|&x| M::Gid(x)).collect();
                             if let Some(cpos) = self.fwd(lk, i, &items) {
                                 if let Some(pp) = parent {
+                                    // The nested lookup matches with ITS OWN flags. Which glyphs
+                                    // it consumes is then fixed; what stays open is only the
+                                    // parent's position bookkeeping, which is cross-checked
+                                    // (array vs recount) at every later record and at the end.
+                                    // A ligature reaching beyond the parent's matched input is
+                                    // not judged (where to resume is engine-specific).
+                                    let window_end = pp.positions.last().copied().unwrap_or(i);
+                                    if cpos.last().map_or(false, |&c| c > window_end) {
+                                        self.out.ambiguous.insert("nested-ligature-leaves-parent-sequence");
+                                    }
                                     let want = pp.positions.get(pp.seq + 1..pp.seq + 1 + cpos.len());
                                     if want != Some(&cpos[..]) {
-                                        self.out.ambiguous.insert("nested-ligature-leaves-parent-sequence");
+                                        self.out.classes.insert("nested-ligature-components-not-next-parent-positions".to_string());
+                                    }
+                                    let last = cpos.last().copied().unwrap_or(i);
+                                    if (i..=last).any(|k| self.skipped(lk, self.buf[k].gid) && !self.skipped(pp.lk, self.buf[k].gid)) {
+                                        self.out.classes.insert("nested-ligature-skipped-glyph-the-parent-counts".to_string());
+                                    }
+                                    if (i..=last).any(|k| !self.skipped(lk, self.buf[k].gid) && self.skipped(pp.lk, self.buf[k].gid)) {
+                                        self.out.classes.insert("nested-ligature-consumed-glyph-the-parent-skips".to_string());
                                     }
                                 }
                                 self.note_applied(lk, si, g, depth);
@@ -640,11 +658,15 @@ impl<'a> Interp<'a> {
             }
             let before = self.buf.len() as isize;
             let gids_before: Vec<u16> = if depth == 0 { self.buf.iter().map(|g| g.gid).collect() } else { Vec::new() };
-            let par = Parent { positions: &positions, seq };
+            let par = Parent { lk, positions: &positions, seq };
             let applied = self.apply_at(nl, p, depth + 1, Some(&par));
             let mut delta = self.buf.len() as isize - before;
             if applied.is_some() {
                 self.out.classes.insert("nested-lookup-applied".to_string());
+                let nlk = self.lk(nl);
+                if (nlk.flag, nlk.mark_set) != (lk.flag, lk.mark_set) {
+                    self.out.classes.insert(format!("nested-lookup-applied-with-own-flags:type{}", nlk.ltype));
+                }
                 if depth == 0 && gids_before != self.buf.iter().map(|g| g.gid).collect::<Vec<_>>() {
                     self.out.classes.insert("nested-lookup-changed-run".to_string());
                 }
@@ -844,6 +866,16 @@ pub fn unit_vectors() -> Vec<String> {
     let ctx = Sub::Ctx3 { covs: vec![cov(&[1]), cov(&[3])], recs: vec![(0, 1), (2, 2)], salt: 0 };
     let p = prog(None, vec![lk(5, 0, None, vec![ctx]), lk(2, 0, None, vec![Sub::Multiple { cov: cov(&[1]), seqs: vec![vec![1, 7]] }]), lk(1, 0, None, vec![single(&[3], &[30])])], vec![vec![0]], None);
     check("nested-multiple-then-single", &p, &[tagn(0)], None, &[1, 3, 3], &[(1, "a"), (7, "a"), (30, "b"), (3, "c")]);
+    // V5b a nested lookup matches with its own flags, not the invoking lookup's
+    let g2 = gdef(&[(1, 1), (2, 1), (3, 2), (5, 3)], &[], vec![]);
+    let ctx = Sub::Ctx1 { cov: cov(&[1]), sets: vec![Some(vec![Rule { back: vec![], input: vec![5, 2], ahead: vec![], recs: vec![(0, 1)] }])], salt: 0 };
+    let nl = lk(4, IGNORE_MARKS, None, vec![Sub::Ligature { cov: cov(&[1]), sets: vec![vec![Lig { comps: vec![2], lig: 3 }]] }]);
+    let p = prog(g2.clone(), vec![lk(5, 0, None, vec![ctx]), nl], vec![vec![0]], None);
+    check("nested-ligature-own-flags-skip", &p, &[tagn(0)], None, &[1, 5, 2], &[(3, "ac"), (5, "b")]);
+    let ctx = Sub::Ctx1 { cov: cov(&[1]), sets: vec![Some(vec![Rule { back: vec![], input: vec![2], ahead: vec![], recs: vec![(0, 1)] }])], salt: 0 };
+    let nl = lk(4, 0, None, vec![Sub::Ligature { cov: cov(&[1]), sets: vec![vec![Lig { comps: vec![2], lig: 3 }]] }]);
+    let p = prog(g2.clone(), vec![lk(5, IGNORE_MARKS, None, vec![ctx]), nl], vec![vec![0]], None);
+    check("nested-ligature-own-flags-block", &p, &[tagn(0)], None, &[1, 5, 2], &[(1, "a"), (5, "b"), (2, "c")]);
     // V6 reverse chaining runs from the end of the run
     let rev = Sub::Rev { cov: cov(&[1]), back: vec![], ahead: vec![cov(&[2])], subst: vec![2], salt: 0 };
     let p = prog(None, vec![lk(8, 0, None, vec![rev])], vec![vec![0]], None);
